@@ -102,7 +102,12 @@ _Bool vf_slot_begin(int k);
 #define VF_ATOMIC_LOAD(site, p, o) ((void)0)
 #define VF_ATOMIC_STORE(site, p, o) ((void)0)
 #define VF_ATOMIC_RMW(site, p, o) ((void)0)
+#ifdef VF_SEQ
+/* a fence is a visible operation too: the native replay yields before it, so it needs a schedule entry */
+#define VF_FENCE(site, o) (vf_vis_t = vf_tid)
+#else
 #define VF_FENCE(site, o) ((void)0)
+#endif
 #endif
 #define VF_PAUSE() ((void)0)
 #ifdef VF_WEAK_CAS_MAY_FAIL
